@@ -5,7 +5,7 @@
 # /verif can go on meanwhile. The copy under /tmp/vcopy is kept between calls (incremental builds).
 set -u
 PATCH="$(readlink -f "$1")"; shift
-WT=/tmp/try-wt; VC=/tmp/vcopy
+WT=/tmp/try-wt${ISO_ID:-}; VC=/tmp/vcopy${ISO_ID:-}
 if [ ! -d "$WT" ]; then git -C /repo worktree add --detach "$WT" HEAD >/dev/null 2>&1 || exit 2; fi
 git -C "$WT" checkout -q --detach "$(git -C /repo rev-parse HEAD)" && git -C "$WT" checkout -q -- . || exit 2
 mkdir -p "$VC"
